@@ -23,6 +23,8 @@ SCHEMES = {
     # every name is a suffix (prefix) of all later ones: includer titles that end (begin) like the included name
     "suffix": ["n", "un", "oun", "noun", "-noun", "a-noun", "la-noun", "Ala-noun"],
     "prefix": ["c", "ci", "cit", "cite", "cite-", "cite-b", "cite-bo", "cite-boo"],
+    # distinct pages whose titles differ in the case of the first letter only (both can exist; an exact title wins a lookup)
+    "case_twins": ["Foo", "foo", "Bar", "bar", "Baz", "baz", "Q", "q"],
 }
 
 
@@ -248,7 +250,7 @@ def main(run):
     chunks.append(("all", 2, list(range(16)), list(SCHEMES), True))
     m3 = list(range(512))
     for k in range(32):
-        chunks.append(("all", 3, m3[k::32], list(SCHEMES) if not q else ["plain", "lower", "suffix", "prefix"], True))
+        chunks.append(("all", 3, m3[k::32], list(SCHEMES) if not q else ["plain", "lower", "suffix", "prefix", "case_twins"], True))
     if not q:
         m4 = list(range(1 << 16))
         for k in range(256):
